@@ -741,13 +741,18 @@ Proof.
   destruct (ac =? 0); [reflexivity|].
   change (1 =? 0) with false. cbn [andb].
   destruct (negb (is_null cu)); cbn [andb].
-  - destruct (_ >? sz); [reflexivity|]. destruct (_ =? sz); [reflexivity|].
-    destruct (_ <? 0); [reflexivity|].
+  - set (esz := Loader_gen.ovni_ev_size (evview st cu)).
+    set (off := of + esz).
+    destruct (off >? sz); [reflexivity|]. destruct (off =? sz); [reflexivity|].
+    set (nes := LoaderStep_gen.next_ev_size _ _).
+    destruct (nes <? 0); [reflexivity|].
+    match goal with |- context [cast_int64 ?x + co] => set (cl := cast_int64 x + co) end.
     cbn [w_lastclock w_deltaclock w_cur w_offset g_lastclock g_buf g_junk g_cur g_size g_deltaclock g_clkoff g_active g_unsorted g_offset w_unsorted].
-    destruct ((un =? 0) && _); reflexivity.
+    destruct ((un =? 0) && (cl <? lc)); reflexivity.
   - destruct (_ <? 0); [reflexivity|].
+    match goal with |- context [cast_int64 ?x + co] => set (cl := cast_int64 x + co) end.
     cbn [w_lastclock w_deltaclock w_cur w_offset g_lastclock g_buf g_junk g_cur g_size g_deltaclock g_clkoff g_active g_unsorted g_offset w_unsorted].
-    destruct ((un =? 0) && _); reflexivity.
+    destruct ((un =? 0) && (cl <? lc)); reflexivity.
 Qed.
 
 (* the events a stream will deliver from its present cursor on: (raw clock, payload) in file order; the payload
